@@ -17,7 +17,7 @@ Lemma lbl_mk_wrapper wl wa other nodes : lbl (mk_wrapper wl wa other nodes) = wl
 Proof. destruct wa; reflexivity. Qed.
 
 Section Wrap.
-  Variables (fixed : bool) (t : tree) (p : path) (a : attr) (lo hi wl : nat) (wa : attr)
+  Variables (fixed : variant) (t : tree) (p : path) (a : attr) (lo hi wl : nat) (wa : attr)
             (other : list tree) (n : tree).
   Hypothesis Gp : get t p = Some n.
   Hypothesis Hlo : lo < hi.
@@ -68,7 +68,7 @@ Section Wrap.
 
   Lemma wrap_block bl bh pre na nlo nhi :
     bl < bh -> bh <= length (kids n a) ->
-    (fixed = true \/ ~ (lo < bl /\ bl < hi /\ bh <= hi)) ->
+    (wrap_fixed fixed = true \/ ~ (lo < bl /\ bl < hi /\ bh <= hi)) ->
     fb bl bh = Ok (pre, na, nlo, nhi) ->
     exists m, get (set_kids n a (f (kids n a))) pre = Some m /\
               nlo < nhi /\ nhi <= length (kids m na) /\
@@ -89,7 +89,7 @@ Section Wrap.
     destruct (in_range bl lo hi && in_range (bh - 1) lo hi) eqn:E3.
     { injection F as <- <- <- <-. unfold in_range in E3.
       assert (IX : wrap_inner_anchor_idx fixed bl lo = lo).
-      { unfold wrap_inner_anchor_idx. destruct fixed; auto. destruct PRE as [?|PRE]; [discriminate|]. lia. }
+      { unfold wrap_inner_anchor_idx. destruct (wrap_fixed fixed); auto. destruct PRE as [?|PRE]; [discriminate|]. lia. }
       rewrite IX. exists W. split.
       - rewrite get_single, kids_set_kids_same. apply wrap_nth_W.
       - unfold W. rewrite kids_mk_wrapper. rewrite slice_length by lia.
@@ -123,9 +123,9 @@ Section Wrap.
       + apply andb_true_iff in Sc as [Sp Sb]. apply path_eqb_eq in Sp as ->. apply attr_eqb_eq in Sb as ->.
         destruct (valid_block_inv _ _ _ _ _ V) as [n0 [G0 [Hl Hh]]].
         rewrite Gp in G0. injection G0 as <-.
-        assert (PRE' : fixed = true \/ ~ (lo < l /\ l < hi /\ h <= hi)).
+        assert (PRE' : wrap_fixed fixed = true \/ ~ (lo < l /\ l < hi /\ h <= hi)).
         { unfold wrap_pre, wrap_preb in PRE. rewrite path_eqb_refl, attr_eqb_refl in PRE.
-          destruct fixed; [left; reflexivity|right]. simpl in PRE. lia. }
+          destruct (wrap_fixed fixed); [left; reflexivity|right]. simpl in PRE. lia. }
         assert (F0 := F). cbn [local_forward] in F0. rewrite path_eqb_refl, attr_eqb_refl in F0. simpl in F0.
         destruct (fb l h) as [[[[pre na] nlo] nhi]| |] eqn:Fb; simpl in F0; try discriminate.
         injection F0 as <-.
@@ -202,14 +202,15 @@ Proof.
 Qed.
 
 (** the repaired [fwd_block]: full strength *)
-Corollary wrap_sound_fixed p a lo hi wl wa other t t' c c' :
+Corollary wrap_sound_fixed v p a lo hi wl wa other t t' c c' :
+  wrap_fixed v = true ->
   valid_edit t (EWrap p a lo hi wl wa other) -> apply_edit (EWrap p a lo hi wl wa other) t = Some t' ->
   valid_cursor t c ->
-  fwd_edit true (EWrap p a lo hi wl wa other) t c = Ok c' ->
+  fwd_edit v (EWrap p a lo hi wl wa other) t c = Ok c' ->
   valid_cursor t' c' /\ same_e (EWrap p a lo hi wl wa other) t c t' c'.
 Proof.
-  intros VE AP VC FW. apply (wrap_sound true p a lo hi wl wa other t t' c c'); auto.
-  unfold wrap_pre, wrap_preb. destruct c; reflexivity.
+  intros WF VE AP VC FW. apply (wrap_sound v p a lo hi wl wa other t t' c c'); auto.
+  unfold wrap_pre, wrap_preb. rewrite WF. destruct c; reflexivity.
 Qed.
 
 (** completeness: only block cursors that overlap the wrapped range partially are invalidated *)
@@ -234,7 +235,7 @@ Definition wrap_cex_cursor : cursor := CBlock [] Body 1 2.
 Lemma wrap_refuted :
   exists t e c t' c',
     valid_edit t e /\ apply_edit e t = Some t' /\ valid_cursor t c /\
-    fwd_edit false e t c = Ok c' /\ ~ inb_cursor t' c'.
+    fwd_edit code_as_found e t c = Ok c' /\ ~ inb_cursor t' c'.
 Proof.
   exists wrap_cex_tree, wrap_cex_edit, wrap_cex_cursor.
   eexists. eexists.
@@ -248,6 +249,6 @@ Qed.
 (** hypotheses of [wrap_sound] are satisfiable *)
 Example wrap_sound_example :
   let t := wrap_cex_tree in let e := wrap_cex_edit in let c := CBlock [] Body 0 2 in
-  valid_edit t e /\ wrap_pre false e c /\ valid_cursor t c /\
-  exists t' c', apply_edit e t = Some t' /\ fwd_edit false e t c = Ok c'.
+  valid_edit t e /\ wrap_pre code_as_found e c /\ valid_cursor t c /\
+  exists t' c', apply_edit e t = Some t' /\ fwd_edit code_as_found e t c = Ok c'.
 Proof. vm_compute. repeat split; eauto. Qed.
